@@ -27,20 +27,35 @@ def main():
     if '--only' in a:
         only = a[a.index('--only') + 1]
     muts = []
-    for l in open(os.path.join(V, 'mutants', pid + '.txt')):
-        l = l.rstrip('\n')
-        if not l.strip() or l.lstrip().startswith('#'):
+    text = open(os.path.join(V, 'mutants', pid + '.txt')).read()
+    literal = '<NL>' in text        # files written for direct shell use: backslashes are literal
+    prev_comment = ''
+    for l in text.split('\n'):
+        if not l.strip():
+            continue
+        if l.lstrip().startswith('#'):
+            prev_comment = l.lstrip('# ').strip()
             continue
         body = re.split(r'\s+#\s', l, 1)
         spec = body[0].strip()
-        comment = body[1] if len(body) > 1 else ''
+        comment = body[1].strip() if len(body) > 1 else ''
         if only and only not in l:
             continue
         if spec.startswith('patch:'):
             spec = os.path.join(V, 'mutants', spec[6:])
+        elif spec.startswith('mutants/') and spec.endswith('.patch'):
+            spec = os.path.join(V, spec)
+        elif ':::' not in spec:
+            continue
+        elif literal:
+            spec = spec.replace('<NL>', '\n')
         else:
-            spec = spec.replace('\\\\', '\x00').replace('\\n', '\n').replace('\\t', '\t').replace('\x00', '\\')
-        muts.append((spec, comment))
+            spec = spec.replace('\\\\', '\x00').replace('\\n', '\n').replace('\\t', '\t') \
+                .replace('\x00', '\\')
+        if not comment:
+            comment = prev_comment
+        expect_miss = comment.lower().startswith(('missed', '(equivalent', '(not a violation'))
+        muts.append((spec, comment, expect_miss))
 
     def one(m):
         r = subprocess.run([os.path.join(V, 'tools', 'mutant'), '--tier', tier, m[0], pid],
@@ -48,14 +63,16 @@ def main():
         out = r.stdout.decode(errors='replace').strip().split('\n')[-1]
         return (r.returncode == 0, m, out)
 
-    caught = 0
+    caught = missed = 0
     with cf.ThreadPoolExecutor(jobs) as ex:
         for ok, m, out in ex.map(one, muts):
-            caught += ok
             tail = out.split(pid + ':', 1)[-1].strip()
-            print('%s  %-60s %s' % ('CAUGHT' if ok else 'MISSED', (m[1] or m[0].replace('\n', '\\n'))[:60], tail[:150]))
-    print('%d/%d caught' % (caught, len(muts)))
-    return 0 if caught == len(muts) else 1
+            label = 'CAUGHT' if ok else ('missed (expected: equivalent / not a violation)' if m[2] else 'MISSED')
+            caught += ok
+            missed += (not ok and not m[2])
+            print('%s  %-60s %s' % (label, (m[1] or m[0].replace('\n', '\\n'))[:60], tail[:150]))
+    print('%s: %d/%d caught, %d unexpected misses' % (pid, caught, len(muts), missed))
+    return 0 if missed == 0 else 1
 
 
 if __name__ == '__main__':
